@@ -506,7 +506,7 @@ def run(chk):
     chk.states += int(sub.get("executions", 0))
     chk.transitions += int(sub.get("steps", 0))
     chk.traces += int(sub.get("executions", 0))
-    chk.extra_cov["schedule_exploration"] = {"executions": int(sub.get("executions", 0)), "interleavings_represented_by_independence": int(sub.get("interleavings_represented", 0)), "capped_runs": int(sub.get("capped", 0)), "preemption_bound": 2}
+    chk.extra_cov["schedule_exploration"] = {"executions": int(sub.get("executions", 0)), "interleavings_represented_by_independence": int(sub.get("interleavings_represented", 0)), "capped_runs": int(sub.get("capped", 0)), "preemption_bound": {"all shapes": 2 if tier != "quick" else "2 on the smallest shape of every kernel, 1 on the others", "smallest shapes": 3 if tier != "quick" else 2}, "model_threads": [2, 3] + ([4] if tier != "quick" else [])}
     try:
         omp = build_openmp()
         oc = []
